@@ -102,6 +102,14 @@ def ranking_cases(tier, rng):
                 for _ in range(3 if tier == "quick" else 20):
                     out.append({"src": "generated", "r": [], "naming": "zero", "ne": n, "steps": steps, "complete": c,
                                 "seed": rng.randrange(10 ** 9)})
+    p3 = [r for r in grids.partial(3) if r]
+    for k, r in enumerate(p3):
+        for which in (0, 1):
+            out.append({"src": "ctor_alias", "r": r, "naming": ["ints", "letters"][k % 2], "ne": 4, "which": which})
+        r2 = p3[(k * 7 + 3) % len(p3)]
+        for which in (0, 1):
+            out.append({"src": "consensus_handbuilt", "r": r, "r2": r2, "naming": ["ints", "letters"][k % 2], "ne": 3,
+                        "which": which})
     cfgs = ["Borda", "Copeland", "PickAPerm", "KwikSort", "BioConsert", "BioCo", "ParCons", "ExactPulp",
             "ParCons(b0,BioConsert)"]
     sch = [ac.P_UNI1, ac.P_UNI5, ac.P_IND1]
